@@ -1139,8 +1139,8 @@ static void Rewrites(vh::Ctx& c) {
 
 void vh_case(vh::Ctx& c) {
   try {
-    if (c.stage == "dags") RandomDag(c);
-    else if (c.stage == "rewrites") Rewrites(c);
+    if (c.stage.rfind("dags", 0) == 0) RandomDag(c);  // "dags", "dags-par"
+    else if (c.stage.rfind("rewrites", 0) == 0) Rewrites(c);
     else c.inconclusive("unknown stage " + c.stage);
   } catch (const std::exception& e) {
     c.violation(std::string("throw:") + e.what(), vh::J().s("what", e.what()).s("stage", c.stage).str());
